@@ -98,6 +98,19 @@ class World:
             self._seen_modules.add(module.relpath)
             self._pending_modules.append(module)
 
+    def _setters_of(self, cls_name, _seen=None):
+        """property name -> setter node, own class first, then registered bases"""
+        cls = self.classes.get(cls_name)
+        if cls is None:
+            return {}
+        out = {}
+        for bname in cls.base_names():
+            b = self.classes.get((bname or "").split(".")[-1])
+            if b is not None and b.name != cls_name and b.name not in (_seen or ()):
+                out.update(self._setters_of(b.name, (_seen or set()) | {cls_name}))
+        out.update({k: v.node for k, v in getattr(cls, "setters", {}).items()})
+        return out
+
     def add_func(self, f):
         self.funcs[f.node.name] = f
         self.ext = None
@@ -186,6 +199,7 @@ class World:
         ext["__bool__"] = self.truth
         ext["__module_env__"] = self.module_env
         ext["__class_state__"] = self.class_state
+        ext["__setters__"] = self._setters_of
         self.ext = ext
         for cname, cls in self.classes.items():  # class-level constants / containers: one object per class, shared by all instances
             if cname in self.class_state:
